@@ -169,7 +169,7 @@ Definition fire (rules : list rule) (l : list N) : list N :=
                else acc) rules l.
 
 Definition S_close1 (f : font) (gl : list N) : list N :=
-  let rules := all_rules f in iter (S (length rules)) (fire rules) gl.
+  iter (S (length (f_glyphs f))) (fire (all_rules f)) gl.
 
 Definition comps_of (f : font) (g : N) : list N :=
   match nthN (f_glyphs f) g with Some x => g_comps x | None => [] end.
@@ -177,7 +177,7 @@ Definition comps_of (f : font) (g : N) : list N :=
 Definition expand (f : font) (l : list N) : list N :=
   fold_left (fun acc g => fold_left (fun a c => set_add c a) (comps_of f g) acc) l l.
 
-Definition S_close2 (f : font) (l : list N) : list N := iter (length (f_glyphs f)) (expand f) l.
+Definition S_close2 (f : font) (l : list N) : list N := iter (S (length (f_glyphs f))) (expand f) l.
 
 Definition S_sel (f : font) (gl : list N) : list N :=
   let l1 := S_close1 f gl in
